@@ -657,4 +657,12 @@ def rule_copied_guards(ctx: Ctx):
     c09.rule_any(ctx, rule="C01.expected")
 
 
-RULES = [rule_loop, rule_none, rule_match, rule_allof, rule_expected, rule_reject, rule_write, rule_copied_guards]
+def rule_decided_at_dequeue(ctx: Ctx):
+    """C01.none: whether an event has a transition is decided by `_trigger` on the state current when the event is
+    taken from the queue - every send enqueues its trigger (no send-time filter in any `put` implementation)."""
+    from . import c03
+
+    c03.rule_put(ctx, rule="C01.none")
+
+
+RULES = [rule_loop, rule_none, rule_match, rule_allof, rule_expected, rule_reject, rule_write, rule_copied_guards, rule_decided_at_dequeue]
